@@ -123,20 +123,86 @@ type tkResult struct {
 }
 
 func (h *tkHarness) tokenize(s string) tkResult {
+	_, r := h.tokenizeVia("TokenizeBuffer", s)
+	return r
+}
+
+// the entry points that hand out a token list, and those that hand out the list of token values
+var tkListEntries = []string{"TokenizeBuffer", "TokenizeStream", "SetReader+NextToken"}
+var tkStringEntries = []string{"TokenizeBufferToStrings", "TokenizeStreamToStrings"}
+
+// tokenizeVia reads s through one of the token-list entry points and also returns the list value itself
+// (the caller may keep it and read it again later).
+func (h *tkHarness) tokenizeVia(entry, s string) (mv, tkResult) {
 	if h.fault != "" {
-		return tkResult{kind: "opaque", why: h.fault}
+		return nil, tkResult{kind: "opaque", why: h.fault}
 	}
 	h.m.steps = 0
-	r, out := h.call("TokenizeBuffer", s)
+	var r mv
+	var out mOutcome
+	switch entry {
+	case "TokenizeBuffer":
+		r, out = h.call(entry, s)
+	default:
+		newScanner := h.c.MustFunc("io", "", "NewStringScanner")
+		sc, o := h.m.Call(newScanner, s)
+		if o.kind != "ok" {
+			return nil, tkResult{kind: o.kind, why: "NewStringScanner: " + o.why}
+		}
+		if entry == "SetReader+NextToken" {
+			toks, bad, why := h.pullToks(sc, 1, 1<<30)
+			switch {
+			case bad != "":
+				return nil, tkResult{kind: "panic", why: bad}
+			case why != "":
+				return nil, tkResult{kind: "opaque", why: why}
+			}
+			return nil, tkResult{kind: "ok", toks: toks}
+		}
+		r, out = h.call(entry, mIface{t: newScanner.Signature.Results().At(0).Type(), v: sc})
+	}
 	h.lastPath = h.m.recentPath()
 	if out.kind != "ok" {
-		return tkResult{kind: out.kind, why: out.why}
+		return nil, tkResult{kind: out.kind, why: out.why}
 	}
 	toks, why := h.readTokens(r)
 	if why != "" {
-		return tkResult{kind: "opaque", why: why}
+		return nil, tkResult{kind: "opaque", why: why}
 	}
-	return tkResult{kind: "ok", toks: toks}
+	return r, tkResult{kind: "ok", toks: toks}
+}
+
+// stringsVia reads s through one of the string-list entry points.
+func (h *tkHarness) stringsVia(entry, s string) (vals []string, kind, why string) {
+	h.m.steps = 0
+	var r mv
+	var out mOutcome
+	if entry == "TokenizeBufferToStrings" {
+		r, out = h.call(entry, s)
+	} else {
+		newScanner := h.c.MustFunc("io", "", "NewStringScanner")
+		sc, o := h.m.Call(newScanner, s)
+		if o.kind != "ok" {
+			return nil, o.kind, "NewStringScanner: " + o.why
+		}
+		r, out = h.call(entry, mIface{t: newScanner.Signature.Results().At(0).Type(), v: sc})
+	}
+	if out.kind != "ok" {
+		return nil, out.kind, out.why
+	}
+	vals = []string{}
+	if sl, isSl := r.(mSlice); isSl {
+		for _, e := range sl.arr {
+			str, isStr := e.(string)
+			if !isStr {
+				return nil, "opaque", "a value of the string list is " + mRender(e)
+			}
+			vals = append(vals, str)
+		}
+	} else if _, isNil := r.(mNilT); !isNil {
+		return nil, "opaque", "the string list is " + mRender(r)
+	}
+	return vals, "ok", ""
 }
 
 func renderToks(ts []tkTok) string {
